@@ -8,6 +8,7 @@ pub mod zkir_gen;
 pub mod ops_native;
 pub mod regex_ref;
 pub mod s3;
+pub mod acc_circuit;
 
 /// The minimal JWT payload of the in-repo parser test (accepted by the shipped `Jwt` automaton).
 pub const MINIMAL_JWT: &str = r#"{
